@@ -235,6 +235,26 @@ def make_element_spec(rng, sym, mode="physical", label_classes=None, depth=0, ma
     return spec
 
 
+def plain_spec(sym, **values):
+    """element spec with the class-default limits/fixed flags and the given values (defaults otherwise)"""
+    info = catalogue()[sym]
+    return {"t": "E", "sym": sym, "label": "", "subs": {}, "_states": [],
+            "p": {k: [enc(values.get(k, d)), enc(lo), enc(hi), bool(fx)] for k, (d, lo, hi, fx) in info["params"].items()}}
+
+
+def tiny_subcircuits(rng, tree, p=0.25):
+    """Scale extreme: with probability p per sub-circuit of every container, replace it by a single R or L whose impedance is tiny
+    but NOT zero (1e-12..5e-9 in SI units) - a legitimate circuit that is not a short.  Returns the number of replacements."""
+    n = 0
+    for e in iter_elements(tree):
+        for k in list(e.get("subs", {})):
+            if rng.random() < p:
+                v = float("%.3E" % 10 ** rng.uniform(-12, -8.3))
+                e["subs"][k] = {"t": "S", "c": [plain_spec("R", R=v) if rng.random() < 0.5 else plain_spec("L", L=v)]}
+                n += 1
+    return n
+
+
 # ------------------------------------------------------------------------------------------------
 # topologies
 # ------------------------------------------------------------------------------------------------
